@@ -98,6 +98,10 @@ impl Prop for C26 {
             let rate = range(r, 5, 24) as u32;
             rates[category] = rate;
             window = range(r, 1, 2) as u32;
+            for x in rates.iter_mut() {
+                // rate x window must stay inside u32 for every category (RrlParams::new checks it)
+                *x = (*x).min(((1u64 << 31) / window as u64) as u32);
+            }
             let cap = (rate * window) as usize;
             let k = range(r, 1, (MAX_GAP_S * rate as u64) >> 32);
             let idle_s = ((k << 32) + rate as u64 - 1) / rate as u64 + r.below(3);
